@@ -417,6 +417,12 @@ def check_string_list(ctx, real, value, case):
             tree.cleanup()
     drain_contracts(ctx, case, None)
     ctx.sample({'value': value}, 'LS')
+    # a TEXT rule that merely looks like the printed form of the list just loaded is still text: it is judged by the
+    # rule language (usually: not a sentence, or a colon-less check -> deny), never by what the list meant
+    for text in (repr(value), json.dumps(value)):
+        if value:
+            ctx.count('text_spelling_of_a_list_rule')
+            check_string(ctx, real, text, 'X', dict(s='X', text=text, after_list=value))
 
 
 YAML_SPELLINGS = [('p:\n', None), ('p: ~\n', None), ('p: null\n', None), ('p: !\n', None), ('p: no\n', False),
@@ -603,5 +609,10 @@ def replay(ctx, case):
     elif s == 'Y':
         check_yaml_spelling(ctx, real, case['yaml'], case.get('parsed'), case)
     else:
+        if case.get('after_list') is not None:
+            try:
+                real.load(case['after_list'], 'dict')          # the list rule that was parsed just before
+            except LoadRejected:
+                pass
         check_string(ctx, real, case['text'], s or 'R', case,
                      readings=ALL_READINGS if s == 'R' else ((False, False),))
